@@ -241,6 +241,13 @@ def set_mode(pp, mode):
         PE.enable_left_recursion(force=True)
 
 
+CURRENT = [None]  # the active Session (for yield points inside parse actions)
+
+
+def current():
+    return CURRENT[0]
+
+
 class Session:
     """one instrumented case; use as a context manager"""
 
@@ -277,6 +284,7 @@ class Session:
         self.M = MemoWrap(self, PE.recursion_memos)
         PE.packrat_cache_lock, PE.recursion_lock = self.P, self.R
         PE.packrat_cache, PE.recursion_memos = self.C, self.M
+        CURRENT[0] = self
         self.fine_codes = set()
         for f in (PE.__dict__["_parseCache"], PE.__dict__["reset_cache"], pp.Forward.__dict__["parseImpl"]):
             f = getattr(f, "__func__", f)
@@ -297,6 +305,7 @@ class Session:
     def __exit__(self, *a):
         PE = self.pp.ParserElement
         s = self.saved
+        CURRENT[0] = None
         if self.stuck or self.deadlock:
             # a real lock may be held for ever by a dead/stuck thread: hand out fresh ones
             PE.packrat_cache_lock, PE.recursion_lock = threading.RLock(), threading.RLock()
@@ -318,6 +327,8 @@ class Session:
 
     def visible(self, tid, ev):
         k = ev[0]
+        if k in ("act", "wait"):
+            return True
         if k == "line":
             return self.gran == "fine"
         if self.gran in ("event", "fine"):
@@ -340,6 +351,16 @@ class Session:
         w.pending = None
         if self.abort:
             raise Abort()
+
+    # ---- yield points usable from parse actions / consumer code of a scenario ------------------------------
+    def yield_point(self, kind="act"):
+        """park the calling worker here (always visible); no-op outside controlled runs"""
+        self.park((kind,), self.tid())
+
+    def wait_for(self, tids):
+        """the calling worker waits until the workers `tids` have finished (scheduler-visible: while it waits it
+        is not enabled; if nobody else is enabled either, the run is a deadlock)"""
+        self.park(("wait", tuple(tids)), self.tid())
 
     # ---- fine granularity: line / opcode events inside the cache functions --------------------------
     def _tracer(self, frame, event, arg):
@@ -379,6 +400,8 @@ class Session:
             if k == "acqP" and self.P.owner not in (None, t):
                 continue
             if k == "acqR" and self.R.owner not in (None, t):
+                continue
+            if k == "wait" and not all(self.workers[u].finished for u in w.pending[1]):
                 continue
             out.append(t)
         return out
